@@ -10,6 +10,7 @@ import (
 
 	pb "github.com/ipfs/boxo/ipld/unixfs/pb"
 	"github.com/ipfs/go-cid"
+	"github.com/ipfs/go-unixfsnode/data/builder"
 	quickbuilder "github.com/ipfs/go-unixfsnode/data/builder/quick"
 	"github.com/ipfs/go-unixfsnode/iter"
 	dagpb "github.com/ipld/go-codec-dagpb"
@@ -52,10 +53,15 @@ func isNoSuchField(err error) bool {
 
 // checkDirIsMap verifies that the reified directory dir behaves exactly as the map want.
 func checkDirIsMap(dir datamodel.Node, want map[string]cid.Cid, nonMembers []string) error {
+	return checkDirIsMapOpt(dir, want, nonMembers, true)
+}
+
+// checkDirIsMapOpt: with lengthFirst false, Length() is first asked after the iterations (a node must not need it up front).
+func checkDirIsMapOpt(dir datamodel.Node, want map[string]cid.Cid, nonMembers []string, lengthFirst bool) error {
 	if dir.Kind() != datamodel.Kind_Map {
 		return fmt.Errorf("kind %s, want map", dir.Kind())
 	}
-	if dir.Length() != int64(len(want)) {
+	if lengthFirst && dir.Length() != int64(len(want)) {
 		return fmt.Errorf("Length() = %d, want %d", dir.Length(), len(want))
 	}
 	// MapIterator
@@ -145,6 +151,35 @@ func checkDirIsMap(dir datamodel.Node, want map[string]cid.Cid, nonMembers []str
 		l := nd.Lookup(pbString(name))
 		if l == nil || cidOf(l.Link()) != w {
 			return fmt.Errorf("native Lookup(%q) = %v want %s", name, l, w)
+		}
+	}
+	// Length() is a function of the directory, not of what was done to the node before: ask again after full iterations,
+	// after an over-read of an exhausted iterator, and after an iteration that was abandoned half way
+	it := dir.MapIterator()
+	for !it.Done() {
+		if _, _, err := it.Next(); err != nil {
+			return fmt.Errorf("MapIterator.Next: %v", err)
+		}
+	}
+	_, _, _ = it.Next() // over-read: an error or nothing, never a change of the directory
+	_, _, _ = it.Next()
+	nit := nd.Iterator()
+	for !nit.Done() {
+		nit.Next()
+	}
+	nit.Next()
+	if dir.Length() != int64(len(want)) {
+		return fmt.Errorf("Length() = %d after iterating to the end (and reading past it), want %d", dir.Length(), len(want))
+	}
+	if len(want) > 1 {
+		pit := dir.MapIterator()
+		for i := 0; i < (len(want)*2)/3 && !pit.Done(); i++ {
+			if _, _, err := pit.Next(); err != nil {
+				return fmt.Errorf("MapIterator.Next: %v", err)
+			}
+		}
+		if dir.Length() != int64(len(want)) {
+			return fmt.Errorf("Length() = %d after an iteration that was dropped after %d steps, want %d", dir.Length(), (len(want)*2)/3, len(want))
 		}
 	}
 	for _, name := range nonMembers {
@@ -299,7 +334,7 @@ func c02OneCase(st *Store, es []entrySpec, how string, fanout int, nonMembers []
 		if err != nil {
 			return depth, sharded, fmt.Errorf("reify (%s): %v", reifier, err)
 		}
-		if err := checkDirIsMap(dir, want, nonMembers); err != nil {
+		if err := checkDirIsMapOpt(dir, want, nonMembers, len(es)%2 == 0); err != nil {
 			return depth, sharded, fmt.Errorf("%s builder, fanout %d, %d entries, via %s: %v", how, fanout, len(es), reifier, err)
 		}
 	}
@@ -435,4 +470,70 @@ func TestC02_R_Basics(t *testing.T) {
 	if d < 12 {
 		t.Fatalf("harness: collision pair only produced depth %d", d)
 	}
+}
+
+// TestC02_P_RepointedLinkSystem: a directory built through a link system that was used before (and re-pointed at another store)
+// must be readable, as the map of its entries, from the store the link system points at now.
+func TestC02_P_RepointedLinkSystem(t *testing.T) {
+	ev := newEvid(t, "case = entry set (incl. the empty set) x builder x fanout built twice through one *ipld.LinkSystem re-pointed at a fresh store in between; oracle = the second directory, read from the second store, is the map of its entries (C02 oracle); every case non-trivial; distinct by (builder, fanout, size bucket)")
+	rapid.Check(t, func(t *rapid.T) {
+		names, _ := genNames(t, nameOpts{Max: 60})
+		if rapid.IntRange(0, 3).Draw(t, "empty") == 0 {
+			names = nil
+		}
+		fanout := genFanout(t)
+		how := rapid.SampledFrom(c02Builders).Draw(t, "builder")
+		var es []entrySpec
+		want := map[string]cid.Cid{}
+		for _, n := range names {
+			e := entryFor(n, 2)
+			es = append(es, e)
+			want[n] = e.Cid
+		}
+		st1 := NewStore()
+		ls := st1.LinkSystem()
+		build := func() (cid.Cid, error) {
+			switch how {
+			case "sharded":
+				l, _, err := builder.BuildUnixFSShardedDirectory(fanout, 0x22, pbEntries(es), ls)
+				return linkCid(l), err
+			case "plain":
+				l, _, err := builder.BuildUnixFSDirectory(pbEntries(es), ls)
+				return linkCid(l), err
+			}
+			m := map[string]quickbuilder.Node{}
+			for _, e := range es {
+				m[e.Name] = qbNode{cidlink.Link{Cid: e.Cid}, int64(e.Tsize)}
+			}
+			var c cid.Cid
+			err := quickbuilder.Store(ls, func(b *quickbuilder.Builder) error { c = cidOf(b.NewMapDirectory(m).Link()); return nil })
+			return c, err
+		}
+		var r1, r2 cid.Cid
+		var err error
+		must(t, "first build", func() { r1, err = build() })
+		if err != nil {
+			t.Fatalf("C02 re-point: first build: %v", err)
+		}
+		st2 := NewStore()
+		ls.StorageWriteOpener, ls.StorageReadOpener = st2.openWrite, st2.openRead
+		must(t, "second build", func() { r2, err = build() })
+		if err != nil || r2 != r1 {
+			t.Fatalf("C02 re-point: second build returned %s, %v (first %s)", r2, err, r1)
+		}
+		var cerr error
+		must(t, "read from the second store", func() {
+			dir, e := loadReified(st2.LinkSystem(), r2, "unixfs")
+			if e != nil {
+				cerr = fmt.Errorf("reify from the store the link system points at now: %w", e)
+				return
+			}
+			cerr = checkDirIsMap(dir, want, []string{"", "nope"})
+		})
+		if cerr != nil {
+			t.Fatalf("C02 re-point (%s builder, fanout %d, %d entries): %v", how, fanout, len(es), cerr)
+		}
+		ev.Case(fmt.Sprintf("%s f=%d n=%s", how, fanout, bucket(len(es))), true, "builder:"+how, "entries:"+bucket(len(es)))
+		ev.Sample(map[string]any{"builder": how, "fanout": fanout, "entries": len(es)})
+	})
 }
